@@ -122,6 +122,7 @@ def shards(tier):
         out.append({'kind': 'L', 'lo': i, 'hi': min(len(L), i + per), 'tier': tier})
     for si, seed in enumerate(SEEDS):
         out.append({'kind': 'det', 'seed': seed, 'si': si, 'tier': tier})
+    out.append({'kind': 'S', 'tier': tier})
     for aid, at in universe.atoms(tier):
         for pos in ('arg', 'field', 'array', 'seq'):
             if universe.program_for(at, pos) is None:
@@ -422,6 +423,33 @@ def run_shard(shard, only=None):
             res['nontrivial'] += 1
             if not res['samples']:
                 res['samples'].append({'features': f, 'wsdl_sha1': hashlib.sha1(w).hexdigest(), 'wsdl_bytes': len(w)})
+    elif shard['kind'] == 'S':
+        # the schema-specific programs of C06 (cross-namespace bases and fields, named simple types in other namespaces
+        # and restrictions of them, attribute-only named types, XmlData): closure, rebuild and zeep
+        from vf.props import c06
+        for name, program, argcases in c06.schema_programs():
+            for proto in ('soap11', 'soap12'):
+                key = [name, proto]
+                if only is not None and only != key:
+                    continue
+                casedoc = {'shard': shard, 'only': key}
+
+                def V(kind, detail, what, casedoc=casedoc, name=name, proto=proto):
+                    res['violations'].append({'sig': 'C07|%s|%s|%s|%s' % (kind, name, proto, detail), 'what': '[%s %s] %s' % (name, proto, what), 'case': casedoc, 'count': 1})
+                res['evaluations'] += 1
+                try:
+                    b, app, w = build_wsdl(program, proto)
+                except Exception as e:
+                    V('build', type(e).__name__ + '@' + drv.innermost_spyne_frame(e), 'application / WSDL cannot be built: %r' % (e,))
+                    continue
+                res['cov']['programs'] += 1
+                structural(program, w, res, V)
+                if drv.published_wsdl(app) != w or build_wsdl(program, proto)[2] != w:
+                    V('nondeterministic-in-process', '', 'two builds of the same application differ')
+                m = program['services'][0]['methods'][0]
+                for args in argcases:
+                    zeep_calls(program, b, app, w, proto, res, V, {m['n']: (args, args[0], None)})
+                res['nontrivial'] += 1
     elif shard['kind'] == 'det':
         # fresh interpreter with the given hash seed builds every lattice application; digests must equal ours
         env = dict(os.environ)
